@@ -5,6 +5,41 @@
   `revealPlates` (np.isin on plate ids, OR with the old mask, the all-zero / NaN guards on 64-bit patterns),
   `setObserved`, the plate counters of `extract_screen_metadata`, `load ∘ save`, and histories of these
   (`Retro.step`, `Retro.run`) in Model/Retro.lean.  Tied to /repo by harness/c12.py.
+
+  CLAUSE MAP (property text -> theorem)
+  1. "At every point of any sequence of mask, unmask and reveal operations each plate is either wholly observed or wholly
+     unobserved"                                       C12_invariant (induction over histories incl. save+load and hold-out steps; by
+                                                       plate name and by plate id), C12_invariant_ctor (the starting screen)
+  2. "revealing a set of plates makes exactly those plates, plus the ones already observed, observed"
+                                                       C12_reveal_exact (row level: new mask = old OR isin; plate level: observed after =
+                                                       observed before ∪ requested), for any id list (observed / repeated / unknown ids)
+  3. "never hides anything"                            C12_reveal_exact (4th conjunct: monotone)
+  4. "never changes any experiment's conditions, plate assignment or stored observation value"
+                                                       C12_reveal_exact (2nd conjunct: the result is `{ s with mask := .. }`, every other
+                                                       field literally equal), C12_mask_exact, C12_unmask_exact; through a file:
+                                                       C12_step_total (save+load = identity), C12_cli_reveal_eq (the CLI composition)
+  5. "Hence the number of unobserved plates reported for the screen drops by exactly the number of newly revealed plates"
+                                                       C12_counter_drop (counter of extract_screen_metadata; nPlates unchanged),
+                                                       C12_counters_after_reload (the counters are those of the in-memory screen after
+                                                       the save+load the CLI performs)
+  6. "Construction rejects a plate with mixed observation status"
+                                                       C12_ctor_rejects_mixed, C12_ctor_rejects_mixed_exact, C12_interleaved_mixed_rejected;
+                                                       for unions: C12_combine_uniform, C12_combine_rejects_shared_mixed, C12_concat_uniform
+  7. "treats observations given without a mask as all observed and no observations as all unobserved"
+                                                       C12_ctor_defaults (C12_ctor_mask_without_obs: a mask alone is refused)
+  8. "directly marking a selection observed stores exactly the given values at exactly those rows"
+                                                       C12_set_observed_exact (well-formed calls); C12_set_observed_errors describes the MODEL
+                                                       on malformed calls (numpy's incidental behaviour, not demanded by the text)
+  9. "revealing refuses plates whose stored values are all zero or contain NaN"
+                                                       C12_reveal_refuses (iff), C12_reveal_refuses_unknown, C12_bits (the two predicates on
+                                                       IEEE bit patterns); C12_step_total / C12_reveal_exact: nothing else is refused
+  10. quantifier "all finite sequences of mask / unmask / reveal(plate-id sets, incl. already observed, repeated and unknown ids)
+      / save / load"                                   `Retro.run step` over arbitrary `List Op`
+  HARNESS-ONLY: that an operation leaves the screen OBJECT it was called on untouched and that results do not share
+  storage that a later call writes to (aliasing).  The model is purely functional -- a `Screen` value cannot be modified by
+  a function applied to it -- so the clause is vacuous in Lean; stating it would need a heap model of numpy arrays
+  (`Screen.__init__` stores its arguments by reference), which is out of proportion.  It is watched by snapshots around every
+  call, branching histories and re-reads of earlier screens (signature C12:input-mutated).
 -/
 import Batchie.Lemmas.LifecycleHistory
 import Batchie.Lemmas.LifecycleExamples
@@ -268,6 +303,41 @@ theorem C12_step_total (s : Screen) (h : Valid s) :
     exact ⟨_, revealPlates_eq h.wf ids hr⟩
   · intro h1 h2
     exact load_save h.wf (List.length_pos_iff.1 h1) (Nat.pos_iff_ne_zero.1 h2)
+
+/-! ### through files: the `reveal_plate` CLI and the counters `extract_screen_metadata` reports -/
+
+/-- `reveal_plate.main()` is `load_h5`, `reveal_plates`, `save_h5` (and whoever reads the output loads it): on a constructed
+    screen with rows and columns this composition IS `reveal_plates` -- same refusals, same result, nothing lost in the
+    files. -/
+theorem C12_cli_reveal_eq (s : Screen) (h : Valid s) (hrows : 0 < s.size) (harity : 0 < s.arity) (ids : List Int) :
+    (load s.save >>= fun a => revealPlates a ids >>= fun b => load b.save) = revealPlates s ids := by
+  rw [load_save h.wf (List.length_pos_iff.1 hrows) (Nat.pos_iff_ne_zero.1 harity)]
+  simp only [bind, Except.bind]
+  cases hr : revealRefused s ids with
+  | true => rw [revealPlates_refused s ids hr]
+  | false =>
+    have he := revealPlates_eq h.wf ids hr
+    have hv : Valid { s with mask := List.zipWith (· || ·) s.mask (revealMask s ids) } :=
+      (step_maps (op := .reveal ids) (s := s) he).1
+    rw [he]
+    exact load_save hv.wf (List.length_pos_iff.1 hrows) (Nat.pos_iff_ne_zero.1 harity)
+
+/-- `extract_screen_metadata` counts on the RELOADED screen: its three counters are those of the screen that was saved -/
+theorem C12_counters_after_reload (s t : Screen) (h : Valid s) (hl : load s.save = .ok t) :
+    nUnobservedPlates t = nUnobservedPlates s ∧ nObservedPlates t = nObservedPlates s ∧ nPlates t = nPlates s := by
+  have e : t = s := by
+    by_cases hn : s.snames = []
+    · rw [load_save_zero_row s hn] at hl; cases hl
+    · by_cases ha : s.arity = 0
+      · rw [load_save_arity_zero s ha] at hl; cases hl
+      · rw [load_save h.wf hn ha] at hl
+        injection hl with hl
+        exact hl.symm
+  rw [e]
+  exact ⟨rfl, rfl, rfl⟩
+
+example : (load exScreen.save >>= fun a => revealPlates a [1, 1, 7, 0] >>= fun b => load b.save) = revealPlates exScreen [1, 1, 7, 0] :=
+  C12_cli_reveal_eq exScreen exScreen_valid (by decide) (by decide) _
 
 /-! ### `Screen.combine` / `Screen.concat`: the union goes through the constructor's per-plate check -/
 
